@@ -1334,3 +1334,176 @@ def kwarg_locals(body, name, const_of=None, named_only=True):
                 S.add(st["pl"]["l"])
                 changed = True
     return {l for l in S if body.local_name(l)} if named_only else S
+
+
+# --------------------------------------------------------------------------- virtual inlining of crate-local helpers
+
+def _remap(x, lo):
+    """deep copy of a MIR JSON fragment with every local index shifted by `lo`"""
+    if isinstance(x, dict):
+        if isinstance(x.get("l"), int) and "p" in x:
+            return {"l": x["l"] + lo, "p": [_remap(p, lo) for p in x["p"]]}
+        if "idx" in x and isinstance(x["idx"], int) and len(x) == 1:
+            return {"idx": x["idx"] + lo}
+        return {k: (v if k == "sp" else _remap(v, lo)) for k, v in x.items()}
+    if isinstance(x, list):
+        return [_remap(v, lo) for v in x]
+    return x
+
+
+def _retarget(t, bo):
+    t = dict(t)
+    k = t["k"]
+    if k in ("goto", "assert", "drop") and t.get("t") is not None:
+        t["t"] = t["t"] + bo
+    elif k == "call":
+        if t.get("t") is not None:
+            t["t"] = t["t"] + bo
+    elif k == "switch":
+        t["targets"] = [[v, tb + bo] for v, tb in t["targets"]]
+        t["otherwise"] = t["otherwise"] + bo
+    return t
+
+
+_KNOWN_FNS = None
+
+
+def known_functions():
+    """function paths of the tree the rules were written against (tables/known_functions.json): anchors may be calls to these, so they are
+    never inlined; only functions that are new relative to that list (helpers a refactoring introduced) are"""
+    global _KNOWN_FNS
+    if _KNOWN_FNS is None:
+        import json, os
+        p = os.path.join(os.path.dirname(os.path.dirname(os.path.abspath(__file__))), "tables", "known_functions.json")
+        try:
+            with open(p) as f:
+                _KNOWN_FNS = set(json.load(f))
+        except OSError:
+            _KNOWN_FNS = set()
+    return _KNOWN_FNS
+
+
+def inline_helpers(crate, body, depth=2, max_callee_blocks=160, max_total=6000, stack=()):
+    """A Body equal to `body` with calls to crate-local functions replaced by their bodies (parameters assigned from the arguments, the
+    return place copied to the destination). Semantics-preserving; used as a second chance for rules whose idiom was moved into a helper."""
+    if depth == 0 or body.kind == "const":
+        return body
+    blocks = [dict(b, s=list(b["s"])) for b in body.blocks]
+    locs = list(body.locals)
+    changed = False
+    for bi in range(len(body.blocks)):
+        t = blocks[bi]["t"]
+        if t["k"] != "call" or t["f"].get("indirect"):
+            continue
+        f = t["f"]
+        tgt = f.get("res") if f.get("res_local") and f.get("res") in crate.bodies else (f["def"] if f.get("local") and f["def"] in crate.bodies else None)
+        if tgt is None:
+            continue
+        h = crate.bodies[tgt]
+        if h.kind not in ("fn", "assoc_fn") or h.path == body.path or h.path in stack or len(h.blocks) > max_callee_blocks or len(blocks) + len(h.blocks) > max_total:
+            continue
+        if h.path in known_functions():
+            continue
+        if h.arg_count != len(t["args"]):
+            continue
+        h = inline_helpers(crate, h, depth - 1, max_callee_blocks, max_total, stack + (body.path,))
+        lo, bo = len(locs), len(blocks)
+        for l in h.locals:
+            l2 = dict(l)
+            l2["inl"] = h.path
+            locs.append(l2)
+        sp = t.get("sp")
+        for i, a in enumerate(t["args"]):
+            blocks[bi]["s"].append({"k": "assign", "pl": {"l": lo + 1 + i, "p": []}, "rv": {"k": "use", "op": a}, "sp": sp, "inl_arg": h.path})
+        cont = t.get("t")
+        blocks[bi]["t"] = {"k": "goto", "t": bo, "sp": sp, "inlined": h.path}
+        for hb in h.blocks:
+            nb = {"s": [_remap(st, lo) for st in hb["s"]], "t": _retarget(_remap(hb["t"], lo), bo)}
+            for k_ in hb:
+                if k_ not in ("s", "t"):
+                    nb[k_] = hb[k_]
+            if nb["t"]["k"] == "return":
+                nb["s"].append({"k": "assign", "pl": t["dest"], "rv": {"k": "use", "op": {"k": "move", "pl": {"l": lo, "p": []}}}, "sp": sp, "inl_ret": h.path})
+                nb["t"] = {"k": "goto", "t": cont, "sp": sp} if cont is not None else {"k": "unreachable", "sp": sp}
+            blocks.append(nb)
+        changed = True
+    if not changed:
+        return body
+    j = dict(body.j)
+    j["blocks"] = blocks
+    j["locals"] = locs
+    nb_ = Body(j, crate)
+    nb_.inlined_from = body
+    return nb_
+
+
+class InlinedCrate:
+    """view of a Crate whose function bodies have their crate-local callees inlined (two levels); everything else is shared"""
+    def __init__(self, crate):
+        self.__dict__["_c"] = crate
+        self.__dict__["bodies"] = _LazyInlined(crate)
+
+    def __getattr__(self, name):
+        return getattr(self._c, name)
+
+    def get(self, path):
+        return self.bodies.get(path)
+
+    def find(self, pred):
+        return [b for b in self.bodies.values() if pred(b)]
+
+    def one(self, suffix):
+        c = [p for p in self._c.bodies if p == suffix or p.endswith("::" + suffix)]
+        if len(c) != 1:
+            return self._c.one(suffix)
+        return self.bodies[c[0]]
+
+    def in_files(self, *files):
+        return [self.bodies[b.path] for b in self._c.in_files(*files)]
+
+    def children(self, body):
+        return [self.bodies[c.path] for c in self._c.children(self._c.bodies.get(body.path, body))]
+
+    def with_closures(self, body):
+        return [body] + self.children(body)
+
+    def root_of(self, body):
+        return self._c.root_of(self._c.bodies.get(body.path, body))
+
+
+class _LazyInlined(dict):
+    def __init__(self, crate):
+        super().__init__()
+        self._c = crate
+        self._done = {}
+
+    def _get(self, k):
+        if k not in self._done:
+            self._done[k] = inline_helpers(self._c, self._c.bodies[k])
+        return self._done[k]
+
+    def __getitem__(self, k):
+        if k not in self._c.bodies:
+            raise KeyError(k)
+        return self._get(k)
+
+    def get(self, k, default=None):
+        return self._get(k) if k in self._c.bodies else default
+
+    def __contains__(self, k):
+        return k in self._c.bodies
+
+    def __iter__(self):
+        return iter(self._c.bodies)
+
+    def __len__(self):
+        return len(self._c.bodies)
+
+    def keys(self):
+        return self._c.bodies.keys()
+
+    def values(self):
+        return [self._get(k) for k in self._c.bodies]
+
+    def items(self):
+        return [(k, self._get(k)) for k in self._c.bodies]
